@@ -756,6 +756,18 @@ func (d *deepView) sliceDeep(v ssa.Value, fr *frame) map[ssa.Value]bool {
 				if r.v != x || r.fr != pf {
 					rec(r.v, r.fr, depth+1)
 				}
+				// the argument as written at the call site too: resolve() looks through
+				// a call into what the callee returns and so steps over the call itself
+				if pf.site != nil {
+					if _, isClosure := pf.site.Common().Value.(*ssa.MakeClosure); !isClosure {
+						args := ir.CallArgs(pf.site)
+						for k, q := range pf.fn.Params {
+							if q == p && k < len(args) {
+								rec(args[k], pf.parent, depth+1)
+							}
+						}
+					}
+				}
 			}
 		}
 	}
@@ -804,6 +816,41 @@ func (d *deepView) binaryWrites() []deepWrite {
 				add(el, di.fr)
 			}
 			continue
+		}
+		// the write sits in a helper that a loop over a literal calls with the
+		// element as its argument: one write per element, as above
+		{
+			val, vfr := data, di.fr
+			handled := false
+			for hops := 0; hops < 3 && !handled; hops++ {
+				p, isP := val.(*ssa.Parameter)
+				if !isP || vfr.parent == nil || vfr.site == nil || p.Parent() != vfr.fn {
+					break
+				}
+				if _, isClosure := vfr.site.Common().Value.(*ssa.MakeClosure); isClosure {
+					break
+				}
+				idx := -1
+				for k, q := range vfr.fn.Params {
+					if q == p {
+						idx = k
+					}
+				}
+				pargs := ir.CallArgs(vfr.site)
+				if idx < 0 || idx >= len(pargs) {
+					break
+				}
+				val, vfr = pargs[idx], vfr.parent
+				if elems, ok := literalElems(val); ok {
+					for _, el := range elems {
+						add(el, vfr)
+					}
+					handled = true
+				}
+			}
+			if handled {
+				continue
+			}
 		}
 		// element of a variadic parameter: the literal at this frame's call site
 		if ld, ok := data.(*ssa.UnOp); ok {
